@@ -427,9 +427,9 @@ theorem innerEv_sep (l : List Rat) (hs : List.Pairwise (· < ·) l) :
     grind
   | case2 l h =>
     match l, h with
-    | [], _ => simp [innerEv]
-    | [a], _ => simp [innerEv]
-    | [a, b], _ => simp [innerEv]
+    | [], _ => simp
+    | [a], _ => simp
+    | [a, b], _ => simp
     | a :: b :: c :: t, h => exact absurd rfl (h a b c t)
 
 theorem capTau_le (tm : Option Rat) (t : Rat) : capTau tm t ≤ t := by
@@ -451,7 +451,7 @@ theorem hit_row_unique (tm : Option Rat) (p q q' : Ev) (hs : Sep q q') :
     ¬(hit tm p q = true ∧ hit tm p q' = true) := by
   have a1 := tau2_le_right tm p q
   have a2 := tau2_le_right tm p q'
-  simp only [hit, axy, eqt, dst2, Bool.or_eq_true, Bool.and_eq_true, decide_eq_true_eq]
+  simp only [hit, axy, eqt, dst2, Bool.or_eq_true, Bool.and_eq_true]
   simp only [Sep] at hs
   grind
 
@@ -459,7 +459,7 @@ theorem hit_col_unique (tm : Option Rat) (q p p' : Ev) (hs : Sep p p') :
     ¬(hit tm p q = true ∧ hit tm p' q = true) := by
   have a1 := tau2_le_left tm p q
   have a2 := tau2_le_left tm p' q
-  simp only [hit, axy, eqt, dst2, Bool.or_eq_true, Bool.and_eq_true, decide_eq_true_eq]
+  simp only [hit, axy, eqt, dst2, Bool.or_eq_true, Bool.and_eq_true]
   simp only [Sep] at hs
   grind
 
@@ -588,5 +588,113 @@ theorem drop_countP_le_sorted (x : Rat) (e : List Rat) (hs : List.Pairwise (· <
       simp only [List.countP_cons, ha, decide_false, h0, List.filter_cons, not_false_eq_true,
         decide_true, if_true, hf]
       simp
+
+
+/-! ### N×N assembly: the double loop writes every off-diagonal entry exactly once -/
+
+def Shaped {α} (n : Nat) (M : Mat α) : Prop := M.length = n ∧ ∀ row ∈ M, row.length = n
+
+theorem shaped_set2 {α} (n : Nat) (M : Mat α) (h : Shaped n M) (a b : Nat) (v : α) :
+    Shaped n (M.set2 a b v) := by
+  refine ⟨by simp [Mat.set2, h.1], ?_⟩
+  intro row hrow
+  simp only [Mat.set2] at hrow
+  rw [List.mem_iff_getElem?] at hrow
+  obtain ⟨k, hk⟩ := hrow
+  rw [List.getElem?_modify] at hk
+  split at hk
+  · cases hM : M[k]? with
+    | none => simp [hM] at hk
+    | some r =>
+      simp [hM] at hk
+      subst hk
+      simp
+      exact h.2 r (List.mem_of_getElem? hM)
+  · simp at hk
+    exact h.2 row (List.mem_of_getElem? hk)
+
+theorem get_set2 {α} (n : Nat) (M : Mat α) (h : Shaped n M) (d : α) (a b i j : Nat) (v : α)
+    (ha : a < n) (hb : b < n) :
+    (M.set2 a b v).get d i j = if i = a ∧ j = b then v else M.get d i j := by
+  have hlen := h.1
+  have hlt : a < M.length := by omega
+  have hrow : (M[a]).length = n := h.2 _ (List.getElem_mem hlt)
+  simp only [Mat.get, Mat.set2, List.getD_eq_getElem?_getD, List.getElem?_modify]
+  by_cases hia : a = i
+  · subst hia
+    by_cases hjb : b = j
+    · subst hjb
+      simp [hlt, hrow, hb]
+    · have : ¬ j = b := fun h => hjb h.symm
+      simp [hlt, hjb, this]
+  · have : ¬ i = a := fun h => hia h.symm
+    simp [hia, this]
+
+
+theorem shaped_step {α} (n : Nat) (M : Mat α) (h : Shaped n M) (pair : Nat → Nat → α × α)
+    (ij : Nat × Nat) : Shaped n (assembleStep pair M ij) :=
+  shaped_set2 n _ (shaped_set2 n M h _ _ _) _ _ _
+
+theorem get_step {α} (n : Nat) (M : Mat α) (h : Shaped n M) (d : α) (pair : Nat → Nat → α × α)
+    (a b i j : Nat) (ha : a < n) (hb : b < n) (hab : a ≠ b) :
+    (assembleStep pair M (a, b)).get d i j =
+      if i = a ∧ j = b then (pair a b).1
+      else if i = b ∧ j = a then (pair a b).2 else M.get d i j := by
+  simp only [assembleStep]
+  rw [get_set2 n _ (shaped_set2 n M h _ _ _) d b a i j _ hb ha, get_set2 n M h d a b i j _ ha hb]
+  grind
+
+theorem get_fold {α} (n : Nat) (d : α) (pair : Nat → Nat → α × α) (ps : List (Nat × Nat))
+    (hps : ∀ p ∈ ps, p.1 < p.2 ∧ p.2 < n) (M : Mat α) (h : Shaped n M) (i j : Nat) :
+    (ps.foldl (assembleStep pair) M).get d i j =
+      if (i, j) ∈ ps then (pair i j).1
+      else if (j, i) ∈ ps then (pair j i).2 else M.get d i j := by
+  induction ps generalizing M with
+  | nil => simp
+  | cons p t ih =>
+    obtain ⟨a, b⟩ := p
+    have hab := hps (a, b) (by simp)
+    simp only at hab
+    have ht : ∀ p ∈ t, p.1 < p.2 ∧ p.2 < n := fun p hp => hps p (List.mem_cons_of_mem _ hp)
+    rw [List.foldl_cons, ih ht _ (shaped_step n M h pair (a, b)),
+      get_step n M h d pair a b i j (by omega) hab.2 (by omega)]
+    have h1 : (j, i) ∈ t → j < i := fun hm => (ht (j, i) hm).1
+    have h2 : (i, j) ∈ t → i < j := fun hm => (ht (i, j) hm).1
+    simp only [List.mem_cons, Prod.mk.injEq]
+    by_cases c1 : (i, j) ∈ t
+    · simp [c1]
+    · by_cases c2 : (j, i) ∈ t
+      · have := h1 c2
+        have e : ¬(i = a ∧ j = b) := by omega
+        simp [c1, c2, e]
+      · simp only [c1, c2, or_false]
+        by_cases e1 : i = a ∧ j = b
+        · obtain ⟨rfl, rfl⟩ := e1; simp
+        · by_cases e2 : i = b ∧ j = a
+          · obtain ⟨rfl, rfl⟩ := e2
+            have : ¬(i = j ∧ j = i) := by omega
+            simp [this]
+          · have e2' : ¬(j = a ∧ i = b) := fun h => e2 ⟨h.2, h.1⟩
+            simp [e1, e2, e2']
+
+theorem mem_upperPairs (n i j : Nat) : (i, j) ∈ upperPairs n ↔ i < j ∧ j < n := by
+  simp only [upperPairs, List.mem_flatMap, List.mem_range, List.mem_map, List.mem_filter,
+    decide_eq_true_eq, Prod.mk.injEq]
+  constructor
+  · rintro ⟨a, ha, b, ⟨hb, hab⟩, rfl, rfl⟩
+    exact ⟨hab, hb⟩
+  · rintro ⟨h1, h2⟩
+    exact ⟨i, by omega, j, ⟨h2, h1⟩, rfl, rfl⟩
+
+theorem shaped_replicate {α} (n : Nat) (z : α) :
+    Shaped n (List.replicate n (List.replicate n z)) := by
+  refine ⟨by simp, ?_⟩
+  intro row hrow
+  rw [List.mem_replicate] at hrow
+  simp [hrow.2]
+
+theorem get_replicate {α} (n : Nat) (z d : α) (i j : Nat) (hi : i < n) (hj : j < n) :
+    Mat.get (List.replicate n (List.replicate n z)) d i j = z := by
+  simp [Mat.get, List.getD_eq_getElem?_getD, hi, hj]
 
 end Pyunicorn.Events
